@@ -25,7 +25,7 @@ type invocation struct {
 	Via    string   // "prune" | "fetch-prune"
 	Flags  []string // flags of the plain command this run stands for (what the oracle is evaluated with)
 	Argv   []string // arguments of git-lfs
-	Env    []string
+	Cfg    []kv     // configuration handed over in GIT_CONFIG_COUNT / GIT_CONFIG_KEY_n / GIT_CONFIG_VALUE_n
 	Note   string // extra class coordinate of the fetch route
 	Damage string // "" or what was damaged before this run
 }
@@ -95,9 +95,7 @@ func (c *cs) fetchInvocation(f fetchRun) invocation {
 		inv.Argv = append(inv.Argv, c.cfg.Remote)
 		notes = append(notes, "remote-arg")
 	}
-	if len(cf) > 0 {
-		inv.Env = configEnv(cf)
-	}
+	inv.Cfg = cf
 	inv.Note = strings.Join(notes, "+")
 	return inv
 }
